@@ -56,6 +56,10 @@ type FuncContract struct {
 	At       []AtItem
 	Opaque   bool // trusted with no effect, arbitrary result
 	Used     bool
+	ForwardFrames bool // "hint forward-frames": frame axioms of array updates also trigger on reads of the old array
+	GhostSets []AtItem // ghost updates at function exit:  ghostset target := expr
+	Preserves []Clause // closure invariants: required at entry, ensured at exit
+	Calls     []string // parameters that are callbacks: the function's only other effects come from invoking them
 }
 
 type SpecFunc struct {
@@ -138,7 +142,7 @@ type MonitorInv struct {
 	E     Expr
 }
 
-var clauseKw = map[string]bool{"requires": true, "ensures": true, "modifies": true, "assigns": true,
+var clauseKw = map[string]bool{"hint": true, "ghostset": true, "preserves": true, "calls": true, "requires": true, "ensures": true, "modifies": true, "assigns": true,
 	"decreases": true, "wrapping": true, "loop": true, "at": true, "pure": true, "opaque": true,
 	"use": true, "by": true}
 var itemKw = map[string]bool{"spec": true, "lemma": true, "func": true, "interface": true, "trusted": true,
@@ -526,6 +530,56 @@ func parseContractFile(path, pkgPath string, requirePrefix bool) (*ContractFile,
 				}
 			} else {
 				return nil, fail("clause outside item")
+			}
+		case "hint":
+			if curF == nil {
+				return nil, fail("hint outside func")
+			}
+			if strings.TrimSpace(rest) == "forward-frames" {
+				curF.ForwardFrames = true
+			} else {
+				return nil, fail("unknown hint %q", rest)
+			}
+		case "ghostset":
+			if curF == nil {
+				return nil, fail("ghostset outside func")
+			}
+			eq := strings.Index(rest, ":=")
+			if eq < 0 {
+				return nil, fail("ghostset needs :=")
+			}
+			te, err := parseExpr(strings.TrimSpace(rest[:eq]))
+			if err != nil {
+				return nil, fail("%v", err)
+			}
+			ve, err := parseExpr(strings.TrimSpace(rest[eq+2:]))
+			if err != nil {
+				return nil, fail("%v", err)
+			}
+			curF.GhostSets = append(curF.GhostSets, AtItem{What: "ghostset", Target: te, E: ve, Text: rest})
+		case "preserves":
+			if curF == nil {
+				return nil, fail("preserves outside func")
+			}
+			c, err := parseClauseExpr(w, rest, ll.line, path)
+			if err != nil {
+				return nil, err
+			}
+			if c.Label == "" {
+				c.Label = fmt.Sprintf("pres%d", len(curF.Preserves)+1)
+			}
+			curF.Preserves = append(curF.Preserves, c)
+			// an invariant is both a precondition and a postcondition of the function itself
+			rq := c
+			rq.Label = "preserves-" + c.Label
+			curF.Requires = append(curF.Requires, rq)
+			curF.Ensures = append(curF.Ensures, rq)
+		case "calls":
+			if curF == nil {
+				return nil, fail("calls outside func")
+			}
+			for _, n := range splitTop(rest, ',') {
+				curF.Calls = append(curF.Calls, strings.TrimSpace(n))
 			}
 		case "modifies", "assigns":
 			if curF == nil {
